@@ -70,7 +70,9 @@ func main() {
 			"old input attached to the redirect = what fiber's own binder returns for request 1 (binder semantics are not judged here)",
 			"order of Messages()/OldInputs() after a round trip is not specified: part (a) compares multisets; part (b) compares sequences in array order",
 			"values with unknown/duplicate map keys or bin-typed strings are outside the statement (unspecified_skipped): only no-panic and the allocation budget are checked",
-			"well-formed MessagePack of the right types in non-minimal widths may be refused or decoded exactly, nothing else",
+			"well-formed MessagePack of the right types in non-minimal widths, and maps lacking some of the four fields, may be refused or decoded exactly (absent = zero value), nothing else",
+			"a valid encoding followed by extra bytes counts as not well-formed (reported under its own signature class=trailing-bytes)",
+			"fiber's WithInput ranges over a Go map, so the order of two old-input pairs inside the cookie varies between runs: per-signature counts of part (a) may differ by a fraction of a percent, the signature set does not",
 			"the request-header seam (cookie set on the parsed request object) reaches the decoder with bytes fasthttp's wire parser refuses; it is what app.Handler() callers and redirect_test use",
 		},
 	}
